@@ -1030,6 +1030,94 @@ Proof.
     destruct (hstep_inv c (HSlice keep) _ false 0 _ C eq_refl) as [[W _] _]. auto.
 Qed.
 
+(* ================================================================== the multi-slot machines only reach single-value histories *)
+Fixpoint sfold (ss : list slot) (ops : list sop) : list slot :=
+  match ops with
+  | [] => ss
+  | o :: r => match sstep ss o with Some (ss', _, _) => sfold ss' r | None => ss end
+  end.
+Fixpoint rsfold (cs : list rctx) (ops : list rsop) : list rctx :=
+  match ops with
+  | [] => cs
+  | o :: r => match rsstep cs o with Some (cs', _, _) => rsfold cs' r | None => cs end
+  end.
+Lemma srun_final ops : forall ss acc, snd (srun ss ops acc) = map dump_slot (sfold ss ops).
+Proof.
+  induction ops as [|o ops IH]; intros ss acc; cbn; auto.
+  destruct (sstep ss o) as [[[ss' r] k]|]; cbn; auto.
+Qed.
+Lemma rsrun_final ops : forall cs acc, snd (rsrun cs ops acc) = map dump_rctx (rsfold cs ops).
+Proof.
+  induction ops as [|o ops IH]; intros cs acc; cbn; auto.
+  destruct (rsstep cs o) as [[[cs' r] k]|]; cbn; auto.
+Qed.
+
+Definition treachable (c : bool) (s : slot) : Prop := exists ops, trun (tour_new c) ops = Some (s_tour s).
+Lemma trun_snoc ops : forall t o,
+  trun t (ops ++ [o]) = match trun t ops with
+                        | Some t1 => match tstep t1 o with Some (t2, _) => Some t2 | None => None end
+                        | None => None
+                        end.
+Proof.
+  induction ops as [|o0 ops IH]; intros t o; cbn.
+  - destruct (tstep t o) as [[t2 r]|]; reflexivity.
+  - destruct (tstep t o0) as [[t1 r]|]; auto.
+Qed.
+Lemma sstep_reachable c ss o ss' r k :
+  Forall (treachable c) ss -> sstep ss o = Some (ss', r, k) -> Forall (treachable c) ss'.
+Proof.
+  intros F H. destruct o as [k0 o|k0 mode|k0 v]; cbn in H; destruct (nth_error ss k0) as [s|] eqn:E; try discriminate;
+    assert (Rs : treachable c s) by (rewrite Forall_forall in F; apply F; eapply nth_error_In; eauto).
+  - destruct (tstep (s_tour s) o) as [[t' r']|] eqn:S; [|discriminate]. inversion H; subst.
+    apply set_nth_Forall; auto. destruct Rs as [ops Ho]. exists (ops ++ [o]). rewrite trun_snoc, Ho, S. reflexivity.
+  - inversion H; subst. apply Forall_app. split; auto.
+  - inversion H; subst. apply set_nth_Forall; auto.
+Qed.
+Lemma sfold_reachable c ops : forall ss, Forall (treachable c) ss -> Forall (treachable c) (sfold ss ops).
+Proof.
+  induction ops as [|o ops IH]; intros ss F; cbn; auto.
+  destruct (sstep ss o) as [[[ss' r] k]|] eqn:S; auto. apply IH. eapply sstep_reachable; eauto.
+Qed.
+
+Definition reachable (gs : list nat) (c : rctx) : Prop := exists hs, fst (hrun (rctx_new gs) hs) = c.
+Lemma hrun_snoc hs : forall c h, fst (hrun c (hs ++ [h])) = fst (hstep (fst (hrun c hs)) h).
+Proof.
+  induction hs as [|h0 hs IH]; intros c h; cbn.
+  - destruct (hstep c h) as [c' b]. reflexivity.
+  - destruct (hstep c h0) as [c1 b1]. specialize (IH c1 h).
+    destruct (hrun c1 (hs ++ [h])) as [c2 t2]. destruct (hrun c1 hs) as [c3 t3]. cbn in *. exact IH.
+Qed.
+Lemma rsstep_reachable gs cs o cs' r k :
+  Forall (reachable gs) cs -> rsstep cs o = Some (cs', r, k) -> Forall (reachable gs) cs'.
+Proof.
+  intros F H. destruct o as [k0 o|k0|k0 keep]; cbn in H; destruct (nth_error cs k0) as [c|] eqn:E; try discriminate;
+    assert (Rc : reachable gs c) by (rewrite Forall_forall in F; apply F; eapply nth_error_In; eauto).
+  - destruct (rstep c o) as [c1 b] eqn:S. inversion H; subst. apply set_nth_Forall; auto.
+    destruct Rc as [hs Hh]. exists (hs ++ [HOp o]). rewrite hrun_snoc, Hh. cbn [hstep]. rewrite S. reflexivity.
+  - inversion H; subst. apply Forall_app. split; auto.
+  - inversion H; subst. apply Forall_app. split; auto. constructor; auto.
+    destruct Rc as [hs Hh]. exists (hs ++ [HSlice keep]). rewrite hrun_snoc, Hh. reflexivity.
+Qed.
+Lemma rsfold_reachable gs ops : forall cs, Forall (reachable gs) cs -> Forall (reachable gs) (rsfold cs ops).
+Proof.
+  induction ops as [|o ops IH]; intros cs F; cbn; auto.
+  destruct (rsstep cs o) as [[[cs' r] k]|] eqn:S; auto. apply IH. eapply rsstep_reachable; eauto.
+Qed.
+
+(* every slot the correspondence machine can reach is the result of a single-tour / single-registry history *)
+Lemma run_tour_slots c ops s : In s (sfold [mkSlot (tour_new c) None] ops) -> exists tops, trun (tour_new c) tops = Some (s_tour s).
+Proof.
+  intros H. assert (F : Forall (treachable c) (sfold [mkSlot (tour_new c) None] ops)).
+  { apply sfold_reachable. constructor; auto. exists []. reflexivity. }
+  rewrite Forall_forall in F. apply F; auto.
+Qed.
+Lemma run_reg_slots gs ops c : In c (rsfold [rctx_new gs] ops) -> exists hs, fst (hrun (rctx_new gs) hs) = c.
+Proof.
+  intros H. assert (F : Forall (reachable gs) (rsfold [rctx_new gs] ops)).
+  { apply rsfold_reachable. constructor; auto. exists []. reflexivity. }
+  rewrite Forall_forall in F. apply F; auto.
+Qed.
+
 (* ================================================================== statements as pinned in Properties/C14.v *)
 Lemma P_C14_tour_wf_history : forall (c : bool) (ops : list top) (t : tour),
   guarded (tour_new c) ops -> trun (tour_new c) ops = Some t ->
